@@ -16,6 +16,7 @@ import (
 	"testing"
 
 	sdk "github.com/cosmos/cosmos-sdk/types"
+	banktypes "github.com/cosmos/cosmos-sdk/x/bank/types"
 	govtypes "github.com/cosmos/cosmos-sdk/x/gov/types"
 	"github.com/cosmos/cosmos-sdk/x/params"
 	"github.com/ethereum/go-ethereum/common"
@@ -40,11 +41,12 @@ type world struct {
 	xibcH      govtypes.Handler
 	aggH       govtypes.Handler
 	paramH     govtypes.Handler
-	tokReg     common.Address // deployed ERC-20, registered as token pair (external owner)
-	tokFree    common.Address // deployed ERC-20, not registered
-	tokTwin    common.Address // deployed ERC-20 whose name/symbol/decimals match the bank metadata of tokReg's pair (UpdateTokenPairERC20 can succeed)
-	tokCoin    common.Address // module-deployed ERC-20 of the registered coin "acoin"
-	supplyCoin []string       // bank denominations with supply (RegisterCoin can succeed)
+	tokReg     common.Address       // deployed ERC-20, registered as token pair (external owner)
+	tokFree    common.Address       // deployed ERC-20, not registered
+	tokTwin    common.Address       // deployed ERC-20 whose name/symbol/decimals match the bank metadata of tokReg's pair (UpdateTokenPairERC20 can succeed)
+	tokCoin    common.Address       // module-deployed ERC-20 of the registered coin "acoin"
+	supplyCoin []string             // bank denominations with supply (RegisterCoin can succeed)
+	storedMeta []banktypes.Metadata // bank metadata of the state the next content is generated for (refreshed per step)
 }
 
 var (
